@@ -183,30 +183,55 @@ def rule_r3(prog, res) -> None:
     if da is None:
         raise AnalysisError("C16.R3: _draw_attributes vanished")
     res.touch(da)
-    fn = da.node
-    subs = [x for x in walk_no_nested(fn) if isinstance(x, ast.Subscript) and isinstance(x.value, ast.Attribute) and x.value.attr in ("weights", "redshifts") and isinstance(x.ctx, ast.Load)]
-    if len(subs) < 2:
-        raise AnalysisError("C16.R3: attribute selections not recognised")
-    idx_names = {unparse(s.slice) for s in subs}
-    if len(idx_names) != 1 or not all(isinstance(s.slice, ast.Name) for s in subs):
-        res.violation("C16.R3", da, subs[0], f"weights and redshifts are selected with different indices {sorted(idx_names)}: they are not drawn jointly from one source row", key_extra="joint-index")
-        return
-    name = subs[0].slice.id
-    defs = all_def_values(fn, name)
-    if len(defs) != 1:
-        res.violation("C16.R3", da, subs[0], f"the row index {name} is drawn {len(defs)} times: weights and redshifts may come from different rows", key_extra="index-redrawn")
-        return
-    d = defs[0]
-    ok = isinstance(d, ast.Call) and unparse(d.func) == "self.rng.integers" and (
-        (len(d.args) >= 2 and isinstance(d.args[0], ast.Constant) and d.args[0].value == 0 and unparse(d.args[1]) == "self.data_size")
-        or (len(d.args) == 1 and unparse(d.args[0]) == "self.data_size" and kwarg(d, "high") is None)  # integers(high): low defaults to 0
-        or (not d.args and kwarg(d, "low") is not None and unparse(kwarg(d, "low")) == "0" and kwarg(d, "high") is not None and unparse(kwarg(d, "high")) == "self.data_size")
-    )
-    size = kwarg(d, "size") if isinstance(d, ast.Call) else None
-    if ok and size is not None and unparse(size) == da.param_names()[1] and kwarg(d, "endpoint") is None:
-        res.ok("C16.R3", res.site(da), f"one draw {unparse(d)} indexes both attribute columns")
-    else:
-        res.violation("C16.R3", da, d, f"row index is drawn as {unparse(d)}: expected self.rng.integers(0, self.data_size, size=<requested size>)", key_extra="index-draw-shape")
+    # decided on the symbolic store of _draw_attributes with both attribute arrays present: the returned dictionary
+    # holds self.weights[I] and self.redshifts[I] for ONE expression I, which is a single draw
+    # rng.integers(0, data_size, size=<requested>) on that path
+    from .. import symx
+    from ..effects import ceval as _ceval
+
+    size_p = da.param_names()[1]
+    fenv = {"self.has_weights": True, "self.has_redshifts": True, "self.data_size": 100}
+
+    def oracle(e):
+        try:
+            return bool(_ceval(e, fenv))
+        except Exception:  # noqa: BLE001
+            return None
+
+    paths = [p for p in symx.explore(prog, da, oracle=oracle, inline=symx.inline_private_helpers(prog)) if p.outcome == "return" and p.value is not None]
+    if not paths:
+        raise AnalysisError("C16.R3: attribute selections not recognised (no returning path with both attribute arrays)")
+    for p in paths:
+        v = p.value
+        if isinstance(v, ast.Call) and isinstance(v.func, ast.Name) and v.func.id == "dict" and not v.args:
+            v = ast.Dict(keys=[ast.Constant(value=k.arg) for k in v.keywords], values=[k.value for k in v.keywords])
+        if not (isinstance(v, ast.Dict) and all(isinstance(k, ast.Constant) for k in v.keys)):
+            raise AnalysisError(f"C16.R3: attribute selections not recognised (returns {unparse(p.value)[:60]})")
+        got = {k.value: x for k, x in zip(v.keys, v.values)}
+        sel = {}
+        for key in ("weights", "redshifts"):
+            x = got.get(key)
+            if not (isinstance(x, ast.Subscript) and isinstance(x.value, ast.Attribute) and x.value.attr == key and unparse(x.value.value) == "self"):
+                raise AnalysisError(f"C16.R3: attribute selections not recognised ('{key}' is {unparse(x)[:50] if x is not None else 'missing'})")
+            sel[key] = x.slice
+        if unparse(sel["weights"]) != unparse(sel["redshifts"]):
+            res.violation("C16.R3", da, p.node or da.node, f"weights and redshifts are selected with different indices [{unparse(sel['weights'])[:40]}] / [{unparse(sel['redshifts'])[:40]}]: they are not drawn jointly from one source row", key_extra="joint-index")
+            return
+        draws = [ev for ev in p.calls("integers")] + [ev for ev in p.calls() if ev.callee in ("choice", "randint", "random", "permutation")]
+        if len(draws) != 1:
+            res.violation("C16.R3", da, p.node or da.node, f"the row index is drawn {len(draws)} times on one path: weights and redshifts may come from different rows", key_extra="index-redrawn")
+            return
+        d = sel["weights"]
+        ok = isinstance(d, ast.Call) and unparse(d.func) == "self.rng.integers" and (
+            (len(d.args) >= 2 and isinstance(d.args[0], ast.Constant) and d.args[0].value == 0 and unparse(d.args[1]) == "self.data_size")
+            or (len(d.args) == 1 and unparse(d.args[0]) == "self.data_size" and kwarg(d, "high") is None)  # integers(high): low defaults to 0
+            or (not d.args and kwarg(d, "low") is not None and unparse(kwarg(d, "low")) == "0" and kwarg(d, "high") is not None and unparse(kwarg(d, "high")) == "self.data_size")
+        )
+        size = kwarg(d, "size") if isinstance(d, ast.Call) else None
+        if ok and size is not None and unparse(size) == size_p and kwarg(d, "endpoint") is None:
+            res.ok("C16.R3", res.site(da), f"one draw {unparse(d)} indexes both attribute columns")
+        else:
+            res.violation("C16.R3", da, draws[0].node, f"row index is drawn as {unparse(d)[:80]}: expected self.rng.integers(0, self.data_size, size=<requested size>)", key_extra="index-draw-shape")
     # the attribute arrays are kept row-aligned: what is stored is each array as given (or a length- and
     # order-preserving conversion of it), never an independently filtered / reordered copy
     from .. import symx
@@ -345,29 +370,45 @@ def rule_r5(prog, res) -> None:
         res.ok("C16.R5", res.site(s2c, "sin / arcsin"), "cylindrical equal-area map y = sin(dec) and its inverse dec = arcsin(y)")
     else:
         res.violation("C16.R5", s2c, s2c.node, "the sky<->cylinder maps are not the equal-area pair y = sin(dec) / dec = arcsin(y)", key_extra="cylinder-map")
+    from .. import symx
+
     dc = box.methods["_draw_coords"]
     res.touch(dc)
-    u = [c for c in calls_in(dc) if unparse(c.func) == "self.rng.uniform"]
     size_p = dc.param_names()[1]
-    lims = [[unparse(a) for a in c.args[:2]] for c in u]
-    sizes = [unparse(c.args[2]) if len(c.args) > 2 else unparse(kwarg(c, "size")) for c in u]
-    ret = [r.value for r in walk_no_nested(dc.node) if isinstance(r, ast.Return)]
-    ok = lims == [["self.x_min", "self.x_max"], ["self.y_min", "self.y_max"]] and sizes == [size_p, size_p]
-    ok = ok and ret and isinstance(ret[0], ast.Call) and unparse(ret[0].func) == "self._cylinder2sky" and [unparse(a) for a in ret[0].args] == ["x", "y"]
+    dpaths = [p for p in symx.explore(prog, dc, inline=symx.inline_private_helpers(prog, public={"_cylinder2sky", "_sky2cylinder"})) if p.outcome == "return" and p.value is not None]
+    ok = bool(dpaths)
+    lims = sizes = None
+    for p in dpaths:
+        ret = p.value
+        if not (isinstance(ret, ast.Call) and unparse(ret.func) == "self._cylinder2sky" and len(ret.args) == 2):
+            ok = False
+            break
+        u = list(ret.args)
+        if not all(isinstance(c, ast.Call) and unparse(c.func) == "self.rng.uniform" for c in u):
+            ok = False
+            break
+        lims = [[unparse(a) for a in c.args[:2]] for c in u]
+        sizes = [unparse(c.args[2]) if len(c.args) > 2 else unparse(kwarg(c, "size")) for c in u]
+        ok = ok and lims == [["self.x_min", "self.x_max"], ["self.y_min", "self.y_max"]] and sizes == [size_p, size_p] and len(p.calls("uniform")) == 2
     if ok:
         res.ok("C16.R5", res.site(dc), "x ~ U(x_min, x_max), y ~ U(y_min, y_max), each of the requested size, mapped back with (x, y)")
     else:
         res.violation("C16.R5", dc, dc.node, f"coordinates are not drawn as uniform(x_min, x_max, n), uniform(y_min, y_max, n) -> _cylinder2sky(x, y) (limits {lims}, sizes {sizes})", key_extra="draw-coords")
     call = base.methods["__call__"]
     res.touch(call)
-    dcs = [c for c in calls_in(call) if isinstance(c.func, ast.Attribute) and c.func.attr in ("_draw_coords", "_draw_attributes")]
-    p = call.param_names()[1]
-    if len(dcs) == 2 and all(len(c.args) == 1 and unparse(c.args[0]) == p for c in dcs):
+    p_ = call.param_names()[1]
+    cpaths = [p for p in symx.explore(prog, call, inline=symx.inline_private_helpers(prog, public={"_draw_coords", "_draw_attributes", "create"})) if p.outcome == "return"]
+    dcs = [ev for p in cpaths for ev in p.calls() if ev.callee in ("_draw_coords", "_draw_attributes")]
+    if len(dcs) == 2 * len(cpaths) and dcs and all(len(ev.expr.args) == 1 and unparse(ev.expr.args[0]) == p_ for ev in dcs):
         res.ok("C16.R5", res.site(call), "coordinates and attributes are drawn with the same requested size")
     else:
         res.violation("C16.R5", call, call.node, "coordinates and attributes are not drawn with the same requested size", key_extra="call-sizes")
-    create = [c for c in calls_in(call) if isinstance(c.func, ast.Attribute) and c.func.attr == "create"]
-    if create and [unparse(a) for a in create[0].args[:2]] == ["ra", "dec"] and isinstance(kwarg(create[0], "degrees"), ast.Constant) and kwarg(create[0], "degrees").value is False:
+    create = [ev for p in cpaths for ev in p.calls("create")]
+
+    def coord_part(e, i) -> bool:
+        return isinstance(e, ast.Subscript) and isinstance(e.slice, ast.Constant) and e.slice.value == i and isinstance(e.value, ast.Call) and (dotted(e.value.func) or "").split(".")[-1] == "_draw_coords"
+
+    if create and all(len(ev.expr.args) >= 2 and coord_part(ev.expr.args[0], 0) and coord_part(ev.expr.args[1], 1) and isinstance(kwarg(ev.expr, "degrees"), ast.Constant) and kwarg(ev.expr, "degrees").value is False for ev in create):
         res.ok("C16.R5", res.site(call, "create"), "chunk created from (ra, dec) in radian")
     else:
         res.violation("C16.R5", call, call.node, "generated coordinates are not stored as (ra, dec) radian", key_extra="call-create")
